@@ -41,7 +41,8 @@ REQUIRED_MONITORS = ["same_bytes_as_fresh_process", "inputs_unchanged", "no_stal
 REQUIRED_BUCKETS = {"quick": ["op:call_kernel", "op:call_Fq", "op:direct", "op:sasview", "op:clone", "op:release_kernel",
                               "op:release_model", "op:reload", "shared_kernel_interleaving", "toggle:dispersity",
                               "toggle:magnetic", "repeat_identical", "big_then_small", "empty_or_one_point_mesh",
-                              "python_model", "composite_model"]}
+                              "python_model", "composite_model", "q_shares_one_axis_with_previous",
+                              "q_shares_first_point_with_previous", "reff_mode_on_then_off"]}
 REQUIRED_BUCKETS["thorough"] = REQUIRED_BUCKETS["quick"]
 
 HERE = os.path.dirname(os.path.abspath(__file__))
@@ -110,6 +111,10 @@ def plugin_path():
 Q3 = [0.011, 0.052, 0.23]
 Q7 = [0.004, 0.009, 0.02, 0.045, 0.09, 0.17, 0.31]
 QXY = ([0.03, -0.05, 0.0, 0.11, -0.07], [0.02, 0.04, -0.09, 0.0, -0.06])
+# requests that share part of their q input with another request of the same length
+QXY_SAMEX = ([0.03, -0.05, 0.0, 0.11, -0.07], [0.05, 0.05, 0.05, 0.05, 0.05])
+QXY_SAMEY = ([0.01, 0.02, 0.04, -0.08, 0.1], [0.02, 0.04, -0.09, 0.0, -0.06])
+Q3B = [0.011, 0.07, 0.19]
 
 
 def requests():
@@ -136,6 +141,13 @@ def requests():
     add("sphere/mag2d", model="sphere", q=QXY, pars=dict(sph, sld_M0=1.5, sld_mtheta=30.0, sld_mphi=40.0,
                                                           up_frac_i=0.3, up_frac_f=0.8, up_theta=70.0), tag="mag")
     add("sphere/2d", model="sphere", q=QXY, pars=sph)
+    add("sphere/2d-samex", model="sphere", q=QXY_SAMEX, pars=sph)
+    add("sphere/2d-samey", model="sphere", q=QXY_SAMEY, pars=sph)
+    add("sphere/mono3b", model="sphere", q=Q3B, pars=sph)
+    add("sphere/sasview2d", model="sphere", q=QXY, via="sasview", pars=sph)
+    add("sphere/sasview2d-samex", model="sphere", q=QXY_SAMEX, via="sasview", pars=sph)
+    add("sphere/sasview3b", model="sphere", q=Q3B, via="sasview", pars=sph)
+    add("sphere/Fq0", model="sphere", q=Q3, via="call_Fq", pars=dict(sph, radius_effective_mode=0))
     cyl = {"radius": 22.0, "length": 310.0, "sld": 4.0, "sld_solvent": 1.0, "scale": 0.02, "background": 0.001}
     add("cylinder/mono3", model="cylinder", q=Q3, pars=cyl)
     add("cylinder/mono7", model="cylinder", q=Q7, pars=cyl)
@@ -146,6 +158,11 @@ def requests():
     add("cylinder/Fq3pd", model="cylinder", q=Q3, via="call_Fq",
         pars=dict(cyl, radius_effective_mode=3, radius_pd=0.1, radius_pd_n=8))
     add("cylinder/2d", model="cylinder", q=QXY, pars=dict(cyl, theta=40.0, phi=25.0))
+    add("cylinder/2d-samex", model="cylinder", q=QXY_SAMEX, pars=dict(cyl, theta=40.0, phi=25.0))
+    add("cylinder/2d-samey", model="cylinder", q=QXY_SAMEY, pars=dict(cyl, theta=40.0, phi=25.0))
+    add("cylinder/Fq0", model="cylinder", q=Q3, via="call_Fq", pars=dict(cyl, radius_effective_mode=0))
+    add("cylinder/Fq0pd", model="cylinder", q=Q3, via="call_Fq",
+        pars=dict(cyl, radius_effective_mode=0, radius_pd=0.1, radius_pd_n=8))
     add("cylinder/2djit", model="cylinder", q=QXY, pars=dict(cyl, theta=40.0, phi=25.0, theta_pd=10.0, theta_pd_n=7,
                                                             phi_pd=5.0, phi_pd_n=5, phi_pd_type="uniform",
                                                             radius_pd=0.1, radius_pd_n=4))
@@ -172,6 +189,7 @@ def requests():
           "background": 0.0}
     add("hc/mono", model="hollow_cylinder", q=Q3, pars=hc)
     add("hc/Fq2", model="hollow_cylinder", q=Q3, via="call_Fq", pars=dict(hc, radius_effective_mode=2))
+    add("hc/Fq0", model="hollow_cylinder", q=Q3, via="call_Fq", pars=dict(hc, radius_effective_mode=0))
     add("hc/pd120", model="hollow_cylinder", q=Q3, pars=dict(hc, radius_pd=0.1, radius_pd_n=6, thickness_pd=0.15,
                                                             thickness_pd_n=5, length_pd=0.1, length_pd_n=4))
     add("hc/empty", model="hollow_cylinder", q=Q3, pars=dict(hc, thickness=-2.0, thickness_pd=0.1, thickness_pd_n=4),
@@ -219,6 +237,8 @@ def requests():
     add("py/onepoint", model="PLUGIN", q=Q3, pars=dict(py, radius_pd=2.0, radius_pd_n=2, radius_pd_nsigma=1.0), tag="edge")
     add("py/Fq", model="PLUGIN", q=Q3, via="call_Fq", pars=dict(py, radius_effective_mode=0))
     add("py/2d", model="PLUGIN", q=QXY, pars=py)
+    add("py/2d-samex", model="PLUGIN", q=QXY_SAMEX, pars=py)
+    add("py/Fq1", model="PLUGIN", q=Q3, via="call_Fq", pars=dict(py, radius_effective_mode=1))
     add("py/sasview", model="PLUGIN", q=Q3, via="sasview", pars=dict(py, **{"radius.width": 0.1, "radius.npts": 6}))
     cp = {"radius": 33.0, "thickness": 8.0, "scale": 0.9, "background": 0.3}
     add("cplug/mono", model="CPLUGIN", q=Q3, pars=cp)
@@ -315,11 +335,18 @@ def evaluate(state, req, snapshots=None):
                 m.setParam(p.name + ".type", "gaussian")
         for k, v in pars.items():
             m.setParam(k, v)
-        qa = np.array(q, float)
-        qb = qa.copy()
-        res = m.evalDistribution(qa)
-        if snapshots is not None:
-            snapshots.append(("q vector", qb.tolist(), qa.tolist()))
+        if isinstance(q[0], (list, tuple)):
+            qa = [np.array(q[0], float), np.array(q[1], float)]
+            qb = [a.copy() for a in qa]
+            res = m.evalDistribution(qa)
+            if snapshots is not None:
+                snapshots.append(("q vectors", [a.tolist() for a in qb], [a.tolist() for a in qa]))
+        else:
+            qa = np.array(q, float)
+            qb = qa.copy()
+            res = m.evalDistribution(qa)
+            if snapshots is not None:
+                snapshots.append(("q vector", qb.tolist(), qa.tolist()))
     else:
         raise ValueError(via)
     if snapshots is not None:
@@ -410,6 +437,17 @@ def gen_history(rng, reqs, h):
             ["eval", "sph@sw/pd-mode1"], ["eval", "sph@sw/pd-mode0"], ["eval", "sph@sw/pd-mode1-beta"],
             ["eval", "sph@sw/pd-mode0"], ["eval", "sph+cyl/pd"], ["eval", "sph+cyl/pd-A6"], ["eval", "sph+cyl/pd-B5"],
             ["eval", "sph+cyl/pd"], ["eval", "sph+cyl/mono"]]
+    # q inputs that share one axis / their first point with the previous request of the same length on the same
+    # model object, through both the kernel and the SasView interface; R_eff requested and then not requested
+    ops += [["release_kernel", "sphere"], ["eval", "sphere/2d"], ["eval", "sphere/2d-samex"], ["eval", "sphere/2d-samey"],
+            ["eval", "sphere/2d"], ["eval", "sphere/mono3"], ["eval", "sphere/mono3b"],
+            ["eval", "sphere/sasview2d"], ["eval", "sphere/sasview2d-samex"], ["eval", "sphere/sasview"],
+            ["eval", "sphere/sasview3b"], ["eval", "sphere/Fq"], ["eval", "sphere/Fq0"],
+            ["eval", "cylinder/Fq3pd"], ["eval", "cylinder/Fq0pd"], ["eval", "cylinder/Fq1"], ["eval", "cylinder/Fq0"],
+            ["eval", "hc/Fq2"], ["eval", "hc/Fq0"], ["eval", "py/Fq1"], ["eval", "py/Fq"]]
+    if h % 2:
+        ops += [["release_kernel", "cylinder"], ["eval", "cylinder/2d-samex"], ["eval", "cylinder/2d"],
+                ["eval", "cylinder/2d-samey"], ["release_model", "PLUGIN"], ["eval", "py/2d"], ["eval", "py/2d-samex"]]
     if h % 2:
         ops += [["eval", "cylinder/2djit"], ["eval", "cylinder/mag2d"], ["eval", "cylinder/2d"],
                 ["release_kernel", "cylinder"], ["eval", "cylinder/2d"]]
@@ -467,6 +505,17 @@ def run_history(case, rec):
                     rec.bucket("toggle:dispersity")
                 if any(k.endswith("_M0") for k in a) != any(k.endswith("_M0") for k in b):
                     rec.bucket("toggle:magnetic")
+            if prev and reqs[prev]["model"] == req["model"] and reqs[prev]["q"] != req["q"]:
+                qa, qb = reqs[prev]["q"], req["q"]
+                if isinstance(qa[0], (list, tuple)) and isinstance(qb[0], (list, tuple)) and \
+                        (list(qa[0]) == list(qb[0]) or list(qa[1]) == list(qb[1])):
+                    rec.bucket("q_shares_one_axis_with_previous")
+                if not isinstance(qa[0], (list, tuple)) and not isinstance(qb[0], (list, tuple)) and \
+                        len(qa) == len(qb) and qa[0] == qb[0]:
+                    rec.bucket("q_shares_first_point_with_previous")
+            if prev and req["via"] == "call_Fq" and reqs[prev]["via"] == "call_Fq" and kkey == (reqs[prev]["model"], json.dumps(reqs[prev]["q"])) \
+                    and reqs[prev]["pars"].get("radius_effective_mode", 1) and not req["pars"].get("radius_effective_mode", 1):
+                rec.bucket("reff_mode_on_then_off")
             if prev == "cylinder/pd165" and arg == "cylinder/pd9":
                 rec.bucket("big_then_small")
             if req.get("tag") == "edge":
